@@ -164,21 +164,41 @@ def sex_labels(chk, prog):
 def d2(chk, prog):
     chk.clause("D2", "estimator registry: names <-> functions <-> CLI choices; unknown string raises")
     fi = prog.fn(f"{CNA}.center_all")
-    d = [n for n in own_nodes(fi.node) if isinstance(n, ast.Assign) and norm(n.targets[0]) == "est_funcs" and isinstance(n.value, ast.Dict)]
-    if not d:
-        raise AnalysisError("center_all: est_funcs dict vanished")
-    got = {k.value: norm(v) for k, v in zip(d[0].value.keys, d[0].value.values)}
+    # the estimator each name stands for: center_all interpreted with the four library / package estimators recording their calls
     want = {"mean": "pd.Series.mean", "median": "pd.Series.median", "mode": "descriptives.modal_location", "biweight": "descriptives.biweight_location"}
-    chk.decide(got == want, "estimator-registry", f"est_funcs = {got}", f"{fi.qn}::est_funcs", fi.loc(d[0]), f"estimator names must be bound to {want}; found {got}")
+    tbr = Table(chk, "estimator-registry", "center_all(<name>) applies the estimator of that name (mean / median / mode / biweight; default: median), per chromosome and overall", fi.loc(), f"{fi.qn}::estimator names")
+    for name in list(want) + [None]:
+        for by_chrom in (True, False):
+            W.reset()
+            used = []
+            model = Model()
+
+            def rec(tag, used=used):
+                def f(it, v, *a, **k):
+                    used.append(tag)
+                    return Term.sym(f"EST{len(used)}")
+                return f
+            model.ext["pd.Series.mean"] = rec("pd.Series.mean")
+            model.ext["pd.Series.median"] = rec("pd.Series.median")
+            model.prims["cnvlib.descriptives.modal_location"] = rec("descriptives.modal_location")
+            model.prims["cnvlib.descriptives.biweight_location"] = rec("descriptives.biweight_location")
+            g, _ = table("chr", None, False)
+            it = Interp(prog, model)
+            kw = dict(by_chrom=by_chrom)
+            out = tbr.guard(lambda: ("v", it.run_method(g, "center_all", [name] if name is not None else [], kw)), f"estimator={name!r} by_chrom={by_chrom}")
+            if out is None:
+                continue
+            expect = want[name if name is not None else "median"]
+            tbr.cell(bool(used) and set(used) == {expect}, dict(estimator=name if name is not None else "(default)", by_chrom=by_chrom, applied=sorted(set(used)), want=expect))
+    tbr.done("an estimator name (or the default) does not stand for the estimator it names")
+    got = want
     cmds = prog.module("cnvlib.commands")
     choices = [ast.literal_eval(k.value) for n in ast.walk(cmds.tree) if isinstance(n, ast.Call) and isinstance(n.func, ast.Attribute) and n.func.attr == "add_argument"
                and any(isinstance(a, ast.Constant) and a.value == "--center" for a in n.args) for k in n.keywords if k.arg == "choices"]
     chk.floor("--center options", len(choices), 1)
     for c in choices:
         chk.decide(set(c) == set(got), "estimator-registry", f"CLI --center choices {tuple(c)} == estimator names", "cnvlib.commands::--center choices", "cnvlib/commands.py",
-                   f"CLI offers {sorted(c)} but center_all knows {sorted(got)}")
-    default = norm(fi.node.args.defaults[0]) if fi.node.args.defaults else None
-    chk.decide(default == "pd.Series.median", "estimator-registry", "default estimator is the median", f"{fi.qn}::default estimator", fi.loc(), f"default estimator is {default}")
+                   f"CLI offers {sorted(c)} but the estimator names are {sorted(got)}")
     W.reset()
     model = Model()
     empty = GA("CopyNumArray", DF({c: Vec([], aligned=True) for c in ("chromosome", "start", "end", "gene", "log2")}, 0), 0, {})
